@@ -218,3 +218,7 @@ fn contains_any_or_is_control(string: &str, values: &[char]) -> bool {
         .chars()
         .any(|x| values.iter().any(|v| &x == v || x.is_control()))
 }
+
+#[cfg(feature = "verif_hooks")]
+#[path = "verif_hooks/serq_quoting.rs"]
+pub(crate) mod verif_access;
